@@ -390,12 +390,12 @@ func plans() map[string]*propertyPlan {
 		},
 		"C10": {
 			level:       "exploration",
-			rule:        "(grid) every one- and two-part integer restriction over a 27-value boundary grid (type minima/maxima +-1, 0, -0, 2^63, 2^64-1): accepted iff every part is in order and within 64 bits, result equals the written set, is sorted, disjoint and coalesced, and Contains agrees with exact subset against all eight built-in ranges (overlapping or unsorted parts may be rejected or united); (chains) random typedef chains of depth 1-3 over the eight integer types, string lengths and decimal64 at every fraction-digits, with min/max and random spacing: a level that admits a value its parent does not must be rejected, otherwise Entry.Type.Range/Length must equal the innermost written set; (malformed) clearly malformed strings must be rejected; (child) the library's own child-restriction routine, reached through the verif hook accessor, is driven with random coalesced parent sets (1-3 parts inside int8, uint8, int16, uint32, int64, uint64 and decimal64 at every fraction-digits) and child restrictions of 1-3 parts built from the parent's bounds, their neighbours, midpoints, min and max: a part out of order or a value outside the parent must be rejected, otherwise the result must be the written set, sorted, disjoint, coalesced and within the parent; oracle math/big; non-trivial = two parts or chain depth > 1; cases distinct by construction",
+			rule:        "(grid) every one- and two-part integer restriction over a 27-value boundary grid (type minima/maxima +-1, 0, -0, 2^63, 2^64-1): accepted iff every part is in order and within 64 bits, result equals the written set, is sorted, disjoint and coalesced, and Contains agrees with exact subset against all eight built-in ranges (overlapping or unsorted parts may be rejected or united); (decgrid) the same for decimal64 at fraction-digits 1, 2, 3, 9, 17, 18 over a grid of mantissas around the int64 extremes, zero, one unit and ten units, through ParseRangesDecimal; (chains) random typedef chains of depth 1-3 over the eight integer types, string lengths and decimal64 at every fraction-digits, with min/max and random spacing: a level that admits a value its parent does not must be rejected, otherwise Entry.Type.Range/Length must equal the innermost written set; (malformed) clearly malformed strings must be rejected; (child) the library's own child-restriction routine, reached through the verif hook accessor, is driven with random coalesced parent sets (1-3 parts inside int8, uint8, int16, uint32, int64, uint64 and decimal64 at every fraction-digits) and child restrictions of 1-3 parts built from the parent's bounds, their neighbours, midpoints, min and max: a part out of order or a value outside the parent must be rejected, otherwise the result must be the written set, sorted, disjoint, coalesced and within the parent; oracle math/big; non-trivial = two parts or chain depth > 1; cases distinct by construction",
 			assumptions: []string{"number-literal leniency (hex, octal, underscore, leading plus, '1.', '.5') is not judged: C15 scopes literal forms and goyang documents base-0 parsing"},
 			minObserved: map[string]int64{"restrictions": 100000, "chains_compared": 5000},
-			nontrivial:  "nontrivial", evaluations: "restrictions,chains,malformed,child_restrictions",
-			quick:    []spec{{family: "grid", shards: 32, cpuS: 900, asKB: 8 << 20, wallS: 1200}, {family: "chains", cases: 50000, cpuS: 900, asKB: 8 << 20, wallS: 1200}, {family: "malformed", shards: 4, cpuS: 600, asKB: 8 << 20, wallS: 900}, {family: "child", cases: 400000, cpuS: 900, asKB: 8 << 20, wallS: 1200}},
-			thorough: []spec{{family: "grid", shards: 64, cpuS: 7200, asKB: 8 << 20, wallS: 9000}, {family: "chains", cases: 1000000, cpuS: 7200, asKB: 8 << 20, wallS: 9000}, {family: "malformed", shards: 4, cpuS: 600, asKB: 8 << 20, wallS: 900}, {family: "child", cases: 20000000, cpuS: 7200, asKB: 8 << 20, wallS: 9000}},
+			nontrivial:  "nontrivial", evaluations: "restrictions,chains,malformed,child_restrictions,decimal_restrictions",
+			quick:    []spec{{family: "grid", shards: 32, cpuS: 900, asKB: 8 << 20, wallS: 1200}, {family: "chains", cases: 50000, cpuS: 900, asKB: 8 << 20, wallS: 1200}, {family: "malformed", shards: 4, cpuS: 600, asKB: 8 << 20, wallS: 900}, {family: "child", cases: 400000, cpuS: 900, asKB: 8 << 20, wallS: 1200}, {family: "decgrid", shards: 16, cpuS: 900, asKB: 8 << 20, wallS: 1200}},
+			thorough: []spec{{family: "grid", shards: 64, cpuS: 7200, asKB: 8 << 20, wallS: 9000}, {family: "chains", cases: 1000000, cpuS: 7200, asKB: 8 << 20, wallS: 9000}, {family: "malformed", shards: 4, cpuS: 600, asKB: 8 << 20, wallS: 900}, {family: "child", cases: 20000000, cpuS: 7200, asKB: 8 << 20, wallS: 9000}, {family: "decgrid", shards: 16, cpuS: 900, asKB: 8 << 20, wallS: 1200}},
 		},
 		"C05": {
 			level:       "exploration",
